@@ -80,4 +80,9 @@ theorem epochsAtLoopStart_spec (epochs : LK.Py.V) (trained retrain : Bool) :
     epochsAtLoopStart epochs trained retrain = (if guardSpec trained retrain = 0 then epochs else some 0) := by
   cases trained <;> cases retrain <;> simp [epochsAtLoopStart, guardSpec]
 
+
+/-- the `implicit` bridge fits a model constructed for this training (code 1 = `self._construct()`), not one kept from an earlier training —
+    the third-party `fit` warm-starts from whatever factors its object already has -/
+theorem implicit_delegate_fresh : implicitDelegate = some 1 := rfl
+
 end LK.Gen.GuardsC18
